@@ -183,6 +183,8 @@ def main() -> int:
     ap.add_argument("--jobs", type=int, default=3)
     ap.add_argument("--files", nargs="*")
     ap.add_argument("--no-suite", action="store_true")
+    ap.add_argument("--retest", help="results_seed<N>.json of an earlier run: re-run only its survivors")
+    ap.add_argument("--tag", default="")
     args = ap.parse_args()
     anc = anchors()
     files = sorted(anc) if not args.files else args.files
@@ -196,6 +198,12 @@ def main() -> int:
             pool.append((rel, pt))
     rng.shuffle(pool)
     chosen = pool[:args.n]
+    if args.retest:
+        # re-run the mutants that an earlier run (older harness) did not kill
+        want = {(r["file"], r["kind"], r["detail"], r["line"]) for r in json.loads(Path(args.retest).read_text())
+                if r.get("status", "").startswith(("survived", "SURVIVED", "tool-error")) and "file" in r}
+        srcs = {rel: (REPO / rel).read_text() for rel in {w[0] for w in want}}
+        chosen = [(rel, pt) for rel, pt in pool if rel in srcs and (rel, pt[0], pt[2], line_of(srcs[rel], pt)) in want]
     print(f"{len(pool)} mutation points in {len(files)} anchor files; running {len(chosen)}")
     WORK.mkdir(exist_ok=True)
     out_dir = V / "mutation"
@@ -210,7 +218,7 @@ def main() -> int:
                 row = {"status": "tool-error", "error": str(e)[:200]}
             rows.append(row)
             print(json.dumps(row)[:300], flush=True)
-    (out_dir / f"results_seed{args.seed}.json").write_text(json.dumps(rows, indent=1))
+    (out_dir / f"results_seed{args.seed}{args.tag}.json").write_text(json.dumps(rows, indent=1))
     tally: dict[str, int] = {}
     for r in rows:
         tally[r["status"]] = tally.get(r["status"], 0) + 1
@@ -220,7 +228,7 @@ def main() -> int:
     for r in rows:
         if r["status"].startswith(("survived", "SURVIVED")):
             lines.append(f"| {r['file']}:{r['line']} | {r['kind']} {r['detail']} | {','.join(r['props'])} | {r.get('suite', '')} |")
-    (out_dir / f"RESULTS_seed{args.seed}.md").write_text("\n".join(lines) + "\n")
+    (out_dir / f"RESULTS_seed{args.seed}{args.tag}.md").write_text("\n".join(lines) + "\n")
     print(tally)
     shutil.rmtree(WORK, ignore_errors=True)
     return 0
